@@ -122,6 +122,14 @@ POOL = [
     ("ATTENDEE;CN=Smith\u037eROLE=CHAIR;X-W=\u2003pad\u00a0:mailto:u@example.com", "ATTENDEE", {"CN": "Smith\u037eROLE=CHAIR", "X-W": "\u2003pad\u00a0"},
      T("mailto:u@example.com"), None),
     ("COMMENT:line\u2028sep\u0085nel\u000bvt", "COMMENT", {}, T("line\u2028sep\u0085nel\u000bvt"), None),
+    # equivalent spellings: quoted values that need no quotes; enumerated parameter values keep the case they were written in
+    ("ATTENDEE;ROLE=\"chair\";PARTSTAT=\"Accepted\";RSVP=\"true\";CUTYPE=individual:mailto:q@example.com", "ATTENDEE",
+     {"ROLE": "chair", "PARTSTAT": "Accepted", "RSVP": "true", "CUTYPE": "individual"}, T("mailto:q@example.com"), None),
+    ("FREEBUSY;FBTYPE=\"busy-tentative\":20240101T100000Z/PT1H", "FREEBUSY", {"FBTYPE": "busy-tentative"},
+     lambda v: _period(v, datetime(2024, 1, 1, 10), timedelta(hours=1)), None),
+    ("RELATED-TO;RELTYPE=\"sibling\":other-uid", "RELATED-TO", {"RELTYPE": "sibling"}, T("other-uid"), None),
+    ("RECURRENCE-ID;RANGE=\"thisandfuture\":20240101T100000Z", "RECURRENCE-ID", {"RANGE": "thisandfuture"}, lambda v: _dt(v, datetime(2024, 1, 1, 10), 0), None),
+    ("X-Q;X-P=\"plain\";LANGUAGE=\"en-US\":v", "X-Q", {"X-P": "plain", "LANGUAGE": "en-US"}, T("v"), None),
     # years below 1000: four digits on the wire (strftime('%Y') does not pad on every platform)
     ("DTSTART;VALUE=DATE:09991231", "DTSTART", {"VALUE": "DATE"}, lambda v: _dt(v, date(999, 12, 31)), None),
     ("DUE:01230101T000000", "DUE", {}, lambda v: _dt(v, datetime(123, 1, 1)), None),
